@@ -846,4 +846,40 @@ theorem scanLoop_nohang {p : P} (nd : Node) (root : Nat) (s : List Char) (sk ov 
         | idx => simp
         | hang => exact absurd h0 (hroot _ _ _)
 
+/-- parse_string (incl. parse_all) on a root that does not hang and whose ignorables do not either -/
+theorem parseString_nohang {p : P} (g : Grammar) (root : Nat) (dw s : List Char) (pa : Bool) {nd : Node}
+    (hg : g[root]? = some nd) (hb : BndAll s.length p) (hig : ∀ e ∈ nd.ignore, NH p e ∧ IgnAdv p e) (hroot : NH p root) :
+    parseString p g root dw s pa ≠ .hang := by
+  unfold parseString
+  cases hp : p root 0 true true with
+  | ok l ts =>
+    simp only
+    split
+    · rw [hg]
+      simp only
+      have hpre := preParse_nohang nd s hb hig l
+      cases hq : preParse p nd s l with
+      | abort o => simp only; intro ho; subst ho; exact hpre hq
+      | «at» l1 =>
+        simp only
+        have : stringEndCheck dw s l1 ≠ .hang := stringEndImpl_nohang _ _
+        cases hs : stringEndCheck dw s l1 with
+        | ok e ts' => simp
+        | fail c l' => simp
+        | idx => simp
+        | hang => exact absurd hs this
+    · simp
+  | fail c l => simp
+  | idx => simp
+  | hang => exact absurd hp (hroot _ _ _)
+
+/-- scan_string on such a root -/
+theorem scanString_nohang {p : P} (g : Grammar) (root : Nat) (s : List Char) (mm : Nat) (sk ov : Bool) {nd : Node}
+    (hg : g[root]? = some nd) (hb : BndAll s.length p) (hig : ∀ e ∈ nd.ignore, NH p e ∧ IgnAdv p e) (hroot : NH p root) :
+    (scanString p g root s mm sk ov).exc ≠ some .hang := by
+  unfold scanString
+  rw [hg]
+  simp only
+  exact scanLoop_nohang nd root s sk ov hb hig hroot _ _ _ _ (by omega) (by omega)
+
 end PP.Parse
